@@ -24,6 +24,12 @@
 extern "C" void __sanitizer_set_death_callback(void (*)(void));
 #endif
 
+// UBSan's fatal path does not run the ASan death callback: make it abort() so that the SIGABRT handler
+// below flushes the trace of the crashing case (a driver that defines its own copy sets VS_OWN_UBSAN_OPTIONS)
+#ifndef VS_OWN_UBSAN_OPTIONS
+extern "C" const char* __ubsan_default_options() { return "abort_on_error=1"; }
+#endif
+
 namespace vs {
 struct Case {
     long id = 0;
